@@ -31,6 +31,11 @@ type IAMCache struct {
 	service  IAMService
 	iamcache *icache
 	cancel   context.CancelFunc
+
+	// changes serializes the account changes: the change in the service
+	// and the one in the cache are one step, so that the cache ends up
+	// with the state of the change that the service has seen last
+	changes sync.Mutex
 }
 
 var _ IAMService = &IAMCache{}
@@ -161,6 +166,9 @@ func NewCache(service IAMService, expireTime, cleanupInterval time.Duration) *IA
 
 // CreateAccount send create to IAM service and creates an account cache entry
 func (c *IAMCache) CreateAccount(account Account) error {
+	c.changes.Lock()
+	defer c.changes.Unlock()
+
 	err := c.service.CreateAccount(account)
 	if err != nil {
 		return err
@@ -207,6 +215,9 @@ func (c *IAMCache) GetUserAccount(access string) (Account, error) {
 
 // DeleteUserAccount deletes account from IAM service and cache
 func (c *IAMCache) DeleteUserAccount(access string) error {
+	c.changes.Lock()
+	defer c.changes.Unlock()
+
 	err := c.service.DeleteUserAccount(access)
 	if err != nil {
 		return err
@@ -217,6 +228,9 @@ func (c *IAMCache) DeleteUserAccount(access string) error {
 }
 
 func (c *IAMCache) UpdateUserAccount(access string, props MutableProps) error {
+	c.changes.Lock()
+	defer c.changes.Unlock()
+
 	err := c.service.UpdateUserAccount(access, props)
 	if err != nil {
 		return err
